@@ -38,6 +38,11 @@ struct Case {
     tcp: bool,
     id: u16,
     mixed_case: bool,
+    /// big.<zone> also holds a TXT record with one string of 300 octets: the zone-file parser and
+    /// the record constructors accept it, the wire encoder cannot write it, and the server falls
+    /// back to a bare SERVFAIL header
+    #[serde(default)]
+    unencodable: bool,
 }
 
 fn case() -> impl Strategy<Value = Case> {
@@ -56,9 +61,9 @@ fn case() -> impl Strategy<Value = Case> {
         any::<bool>(),
         prop::bool::weighted(0.3),
         any::<u16>(),
-        any::<bool>(),
+        (any::<bool>(), prop::bool::weighted(0.08)),
     )
-        .prop_map(|(txt_count, txt_len, a_count, origin_labels, qname_sel, qtype_sel, payload, dnssec_ok, tcp, id, mixed_case)| Case {
+        .prop_map(|(txt_count, txt_len, a_count, origin_labels, qname_sel, qtype_sel, payload, dnssec_ok, tcp, id, (mixed_case, unencodable))| Case {
             txt_count,
             txt_len,
             a_count,
@@ -70,6 +75,7 @@ fn case() -> impl Strategy<Value = Case> {
             tcp,
             id,
             mixed_case,
+            unencodable,
         })
 }
 
@@ -102,6 +108,9 @@ fn build_zone(c: &Case) -> (Name, InMemoryZoneHandler<TokioRuntimeProvider>) {
         }
         s.truncate((c.txt_len as usize).max(5));
         z.upsert_mut(Record::from_rdata(big.clone(), 300, RData::TXT(TXT::new(vec![s]))), 1);
+    }
+    if c.unencodable {
+        z.upsert_mut(Record::from_rdata(big.clone(), 300, RData::TXT(TXT::new(vec!["u".repeat(300)]))), 1);
     }
     let many = Name::from_ascii("many").unwrap().append_domain(&origin).unwrap();
     for i in 0..c.a_count {
@@ -189,6 +198,13 @@ fn body(c: &Case, rec: &mut Rec) -> CaseResult {
         dec.len()
     );
     vensure!(m.metadata.id == c.id && m.metadata.message_type == MessageType::Response, "server-response-id-or-qr", "{:?}", m.metadata);
+    if c.unencodable && m.metadata.response_code == hickory_proto::op::ResponseCode::ServFail && m.answers.is_empty() && m.authorities.is_empty() && m.additionals.is_empty() {
+        // the encoder gave up on the record and the server sent its fallback: size, decodability and
+        // "no octets left over" have been judged above; there is nothing else in it
+        rec.class("servfail-fallback-after-unencodable-record");
+        rec.nontrivial();
+        return Ok(());
+    }
     vensure!(
         m.queries.len() == 1 && crate::checks::codec_util::labels(&m.queries[0].name) == crate::checks::codec_util::labels(&qname) && m.queries[0].query_type == qtype,
         "server-response-question-not-echoed",
